@@ -114,8 +114,14 @@ class Ctx:
         print(f"[{self.prop}] {msg}", flush=True)
 
     # ------------------------------------------------------------------ builds
+    def registry(self):
+        if not getattr(self, "_registry_done", False):
+            subprocess.run([sys.executable, os.path.join(VERIF, "tools", "gen_registry.py")], check=True)
+            self._registry_done = True
+
     def build_harness(self, profile="release"):
         """Rebuild the harness against /repo's current tree (hooks on). Returns binary path or None."""
+        self.registry()
         for f in ("Cargo.lock", "rust-toolchain.toml"):
             src = os.path.join(REPO, f)
             dst = os.path.join(HARNESS, f)
@@ -133,6 +139,7 @@ class Ctx:
         return os.path.join(HARNESS, "target", profile, "pvh")
 
     def lake_build(self, targets):
+        self.registry()
         t = time.time()
         rc, out, err = run(["lake", "build"] + targets, cwd=LEAN)
         self.log(f"lake build {' '.join(targets)[:120]} rc={rc} {time.time() - t:.1f}s")
